@@ -240,6 +240,15 @@ func (h *harness) genCase(r *rng, name, stream string, nops int) *Case {
 	c.Cfg.SyncMode = r.chance(30)
 	c.Cfg.HashSeed = uint32(r.next())
 	c.Cfg.FSName = "sim"
+	if h.prop == "C06" {
+		// rollover and compaction under both sync modes
+		c.Cfg.MaxSeg = []uint32{1024, 1024, 2048}[r.intn(3)]
+		c.Cfg.MinSeg = []uint32{1, 600}[r.intn(2)]
+		c.Cfg.FragStr = []string{"0.01", "0.3"}[r.intn(2)]
+		f, _ := strconv.ParseFloat(c.Cfg.FragStr, 32)
+		c.Cfg.Frag = float32(f)
+		c.Cfg.SyncMode = r.chance(50)
+	}
 	if h.prop == "C05" || h.prop == "C15" {
 		// frequent compaction: small segments, low thresholds
 		c.Cfg.MaxSeg = []uint32{1024, 1024, 2048}[r.intn(3)]
@@ -252,6 +261,11 @@ func (h *harness) genCase(r *rng, name, stream string, nops int) *Case {
 	npool := []int{6, 20, 60, 150}[r.pick(20, 30, 30, 20)]
 	if flavour == 1 && npool < 40 && r.chance(60) {
 		npool = 40 + r.intn(60)
+	}
+	if h.prop == "C15" && r.chance(50) {
+		// few keys, overwritten and deleted over and over: segments whose records are all dead
+		npool = 2 + r.intn(5)
+		flavour = 0
 	}
 	small := false
 	if h.prop == "C01" || h.prop == "C11" {
@@ -369,12 +383,21 @@ func (h *harness) genCase(r *rng, name, stream string, nops int) *Case {
 		wCrash, wReopen, wCompact = 9, 3, 5
 	case "C05":
 		wCompact, wCrash, wReopen = 14, 2, 2
+	case "C06":
+		wCompact, wSync, wCrash, wReopen = 12, 8, 3, 2
 	case "C09":
 		wReopen, wCrash, wSync = 12, 3, 4
 	case "C02":
 		wReopen, wCrash, wCompact = 10, 1, 6
 	case "C15":
 		wCompact, wReopen, wCrash = 12, 6, 1
+	}
+	if stream != "ploss" && r.chance(25) {
+		// Open followed by Close with no writes at all
+		c.Ops = append(c.Ops, Op{Kind: "reopen"})
+	}
+	if h.prop == "C15" {
+		wDel = 30
 	}
 	// phase: fill first so that splits/overflow/rollover happen
 	fill := nops / 3
@@ -417,6 +440,10 @@ func (h *harness) genCase(r *rng, name, stream string, nops int) *Case {
 				c.Ops = append(c.Ops, o)
 			} else {
 				c.Ops = append(c.Ops, Op{Kind: "compact"})
+			}
+			if r.chance(40) {
+				// the database must stay usable right after a compaction, whatever it removed
+				c.Ops = append(c.Ops, Op{Kind: "sync"})
 			}
 		case 8:
 			c.Ops = append(c.Ops, Op{Kind: "reopen"})
@@ -546,7 +573,16 @@ func (s *session) recoverImage(im *simfs.Image) (string, *simfs.FS) {
 	fs2 := simfs.FromImage(im)
 	o := *s.opts
 	o.FileSystem = fs2
-	db2, err := pogreb.Open(dbDir, &o)
+	var db2 *pogreb.DB
+	var err error
+	func() {
+		defer func() {
+			if e := recover(); e != nil {
+				err = fmt.Errorf("panic: %v", e)
+			}
+		}()
+		db2, err = pogreb.Open(dbDir, &o)
+	}()
 	if err != nil {
 		return "openerr=" + errStr(err), fs2
 	}
@@ -951,7 +987,6 @@ func (s *session) failOpen() {
 	h := s.h
 	s.sim.Kill()
 	h.emit("kill")
-	s.sim.FailAfter = 0 // counts from now: relative budget
 	s.sim.ResetFailBudget(1 + s.r.intn(12))
 	db, err := pogreb.Open(dbDir, s.opts)
 	s.sim.ResetFailBudget(-1)
@@ -989,6 +1024,14 @@ func (h *harness) runCase(c *Case, stream string, r *rng) {
 	}
 	s.images("stable")
 	sinceCk := 0
+	defer func() {
+		// a panic inside the implementation is a failure of the case, not of the harness
+		if e := recover(); e != nil {
+			h.emit("panic op=%d %s", s.opIndex, strings.ReplaceAll(fmt.Sprint(e), " ", "_"))
+			h.emit("end")
+			pogreb.VerifSetYield(nil)
+		}
+	}()
 	for i, o := range c.Ops {
 		s.opIndex = i
 		if s.db == nil {
